@@ -59,7 +59,7 @@ def oracle_dec(orc, cmd, blobs, timeout=3000):
 
 def impl_dec(drv, kind, flags, mode, seed, blobs, memlimit=0, timeout=3000, prior=None):
     """-> (list of (ret, total_in, total_out, calls, out bytes) or None, failures)"""
-    lines = ['dec %d %d %d %d %d %s' % (kind, flags, mode, seed if not callable(seed) else seed(i), memlimit, b.hex() or '-') + (' ' + prior.hex() if prior else '') for i, b in enumerate(blobs)]
+    lines = ['dec %d %d %d %d %d %s' % (kind, flags, mode if not callable(mode) else mode(i), seed if not callable(seed) else seed(i), memlimit, b.hex() or '-') + (' ' + prior.hex() if prior else '') for i, b in enumerate(blobs)]
     res, fails = run_lines(drv, lines, timeout)
     out = []
     for r in res:
